@@ -247,12 +247,62 @@ def catalogue(kind):
 
 # ---------------------------------------------------------------- meshes from recipes
 
+def _dg_class(kind):
+    import skfem
+    return {'line': skfem.MeshLine1DG, 'tri': skfem.MeshTri1DG, 'quad': skfem.MeshQuad1DG,
+            'hex': skfem.MeshHex1DG}[kind]
+
+
+def make_periodic(mrec):
+    """mrec['periodic'] = {'axes': [[..ints..], ...], 'dirs': [...], 'via': 'init_tensor' | 'periodic'}: tensor mesh over
+    the integer axes, periodic in the directions dirs.  via = 'periodic' builds the ordinary tensor mesh first and calls
+    Mesh*DG.periodic(mesh, ix, ix0) with the vertices of the lower / upper side of the single direction dirs[0], paired
+    by their remaining coordinates."""
+    pr = mrec['periodic']
+    axes = [np.array(a, dtype=np.float64) for a in pr['axes']]
+    cls = _dg_class(mrec['kind'])
+    if pr.get('via', 'init_tensor') == 'init_tensor':
+        return cls.init_tensor(*axes, periodic=list(pr['dirs']))
+    base = U.mesh_class(mrec['kind']).init_tensor(*axes)
+    d = pr['dirs'][0]
+    lo, hi = axes[d].min(), axes[d].max()
+    ix = np.nonzero(base.p[d] == lo)[0]
+    ix0 = np.nonzero(base.p[d] == hi)[0]
+    other = [c for c in range(base.p.shape[0]) if c != d]
+    key = lambda v: tuple(base.p[c, v] for c in other)
+    ix = np.array(sorted(ix, key=key), dtype=np.int64)
+    ix0 = np.array(sorted(ix0, key=key), dtype=np.int64)
+    return cls.periodic(base, ix, ix0)
+
+
+def periodic_rec(kind, axes, dirs, via='init_tensor'):
+    """Recipe of a periodic mesh; 'p' / 't' of the underlying ordinary tensor mesh are kept for size bookkeeping."""
+    base = U.mesh_class(kind).init_tensor(*[np.array(a, dtype=np.float64) for a in axes])
+    rec = mesh_rec(kind, base.p, base.t[:NVERT[kind]])
+    rec['periodic'] = {'axes': [[int(x) for x in a] for a in axes], 'dirs': [int(d) for d in dirs], 'via': via}
+    return rec
+
+
+def period_of(mrec):
+    """Period per coordinate (0 = not periodic) of a periodic recipe, else None."""
+    pr = mrec.get('periodic')
+    if not pr:
+        return None
+    return [int(max(a) - min(a)) if c in pr['dirs'] else 0 for c, a in enumerate(pr['axes'])]
+
+
 def make_mesh(mrec):
-    """mrec = {'kind', 'p': dim x nv (ints, times 'scale'), 't': nnodes x nt (0-based), 'scale'}"""
+    """mrec = {'kind', 'p': dim x nv (ints, times 'scale'), 't': nnodes x nt (0-based), 'scale'}; optional
+    'order': 2 (second-order geometry), 'periodic' (see make_periodic), 'xf': {'pow2': k, 'add': [...]} (coordinates
+    multiplied by 2^k, then translated: both exact in floating point for the recipes used)."""
     sc = mrec.get('scale', 1)
     p = np.array(mrec['p'], dtype=np.float64) / sc
+    if 'xf' in mrec:
+        p = p * 2.0 ** mrec['xf'].get('pow2', 0) + np.array(mrec['xf']['add'], dtype=np.float64)[:, None]
     with warnings.catch_warnings():
         warnings.simplefilter('ignore')
+        if 'periodic' in mrec:
+            return make_periodic(mrec)
         m = U.make(mrec['kind'], p, mrec['t'])
         if mrec.get('order', 1) == 2:        # second-order geometry (straight): same cells, extra geometry nodes
             import skfem
@@ -267,6 +317,46 @@ def mesh_rec(kind, p, t, scale=1):
         raise MachineryError('mesh recipe coordinates are not integral at the stated scale')
     return {'kind': kind, 'p': np.rint(q).astype(int).tolist(), 't': np.asarray(t).astype(int).tolist(),
             'scale': int(scale)}
+
+
+def periodic_meshes(tier):
+    """(family, recipe) of periodic tensor meshes: every non-empty set of periodic directions per cell type (three
+    cells across a periodic direction, non-uniform integer spacing), through Mesh*1DG.init_tensor(periodic=...) and
+    through Mesh*1DG.periodic(mesh, ix, ix0) directly."""
+    import itertools as it
+    out = []
+    A, B, Cx = [0, 1, 3, 4], [0, 2, 3, 5], [0, 1, 2, 4]
+    out.append(('periodic', periodic_rec('line', [A], [0])))
+    out.append(('periodic-direct', periodic_rec('line', [B], [0], via='periodic')))
+    for kind in ('tri', 'quad'):
+        out.append(('periodic', periodic_rec(kind, [A, [0, 2, 3]], [0])))
+        out.append(('periodic', periodic_rec(kind, [[0, 1, 2], B], [1])))
+        out.append(('periodic', periodic_rec(kind, [A, B], [0, 1])))
+        out.append(('periodic', periodic_rec(kind, [B, A], [1, 0])))
+        out.append(('periodic-direct', periodic_rec(kind, [A, [0, 2, 3]], [0], via='periodic')))
+        out.append(('periodic-direct', periodic_rec(kind, [[0, 1], Cx], [1], via='periodic')))
+    axes = [A, B, Cx]
+    for r in (1, 2, 3):
+        for dirs in it.combinations(range(3), r):
+            ax = [axes[c] if c in dirs else [0, 2] for c in range(3)]
+            out.append(('periodic', periodic_rec('hex', ax, list(dirs))))
+    out.append(('periodic', periodic_rec('hex', axes, [2, 0, 1])))
+    out.append(('periodic-direct', periodic_rec('hex', [A, [0, 1], [0, 2, 3]], [0], via='periodic')))
+    if tier == 'thorough':
+        out.append(('periodic', periodic_rec('hex', [A, B, [0, 1, 2]], [1, 0])))
+        out.append(('periodic', periodic_rec('quad', [[0, 1, 2, 3, 5], [0, 1, 2, 4]], [0, 1])))
+        out.append(('periodic', periodic_rec('tri', [[0, 1, 2, 3, 5], [0, 1, 2, 4]], [0, 1])))
+        out.append(('periodic-direct', periodic_rec('hex', [[0, 1], [0, 1], Cx], [2], via='periodic')))
+    return out
+
+
+PERIODIC_ELEMS = {
+    'line': [C('ElementLineP1'), C('ElementLineP2'), C('ElementLineMini')],
+    'tri': [C('ElementTriP1'), C('ElementTriP2'), {'comp': [C('ElementTriP2'), C('ElementTriP1')]}, C('ElementTriCR')],
+    'quad': [C('ElementQuad1'), C('ElementQuad2'), C('ElementQuadS2'), {'vec': C('ElementQuad1')}],
+    'hex': [C('ElementHex1'), C('ElementHex2'), C('ElementHexS2'),
+            {'syn': {'kind': 'hex', 'sig': {'n': 1, 'e': 2, 'f': 1, 'i': 1}}}],
+}
 
 
 def universe_meshes(rng, tier, with_wedge=True, big=False):
@@ -397,6 +487,26 @@ def _common_den(ref):
     return 'skip', 0
 
 
+def is_dg_mesh(mesh):
+    from skfem.mesh.mesh_dg import MeshDG
+    return isinstance(mesh, MeshDG)
+
+
+def cell_coords(mesh, sc):
+    """Meshes with a discontinuous geometry (Mesh*1DG, periodic): mesh.p holds one node per (cell, local vertex),
+    addressed through mesh.dofs; returns per cell the integer coordinates (times sc) of its local vertices.  Ordinary
+    meshes: None (vertex v is column v of mesh.p)."""
+    if not is_dg_mesh(mesh):
+        return None
+    kind = kind_of(mesh)
+    ed = np.asarray(mesh.dofs.element_dofs)[:NVERT[kind]]
+    q = np.asarray(mesh.p, dtype=np.float64) * sc
+    if not np.array_equal(q, np.rint(q)):
+        return None
+    q = np.rint(q).astype(np.int64)
+    return [[[int(x) for x in q[:, ed[j, k]]] for j in range(ed.shape[0])] for k in range(ed.shape[1])]
+
+
 def loc_info(mesh, elem, doflocs):
     """Reference locations (rationals over L, an input), vertex coordinates (integers at the mesh scale) and the
     reported global locations: exact integers (times scale * L^deg) or fixed-point limbs (times scale)."""
@@ -415,7 +525,8 @@ def loc_info(mesh, elem, doflocs):
     refl = []
     for row in ref:
         refl.append([] if not np.isfinite(row).all() else [int(round(float(x) * L)) for x in row])
-    pint = int_coords(mesh.p[:, :int(mesh.nvertices)], sc)     # second-order meshes carry extra geometry nodes
+    pcell = cell_coords(mesh, sc)
+    pint = [] if pcell is not None else int_coords(mesh.p[:, :int(mesh.nvertices)], sc)   # (2nd order: extra nodes)
     glob = np.asarray(doflocs, dtype=float)
     out = []
     den = L ** MAPDEG[kind]
@@ -436,7 +547,10 @@ def loc_info(mesh, elem, doflocs):
     rd = elem.refdom
     lf = [[int(i) + 1 for i in f] for f in (rd.facets or [])]
     le = [[int(i) + 1 for i in f] for f in (rd.edges or [])]
-    return {'mode': mode, 'L': int(L), 'sc': int(sc), 'ref': refl, 'p': pint, 'glob': out, 'lf': lf, 'le': le}
+    loc = {'mode': mode, 'L': int(L), 'sc': int(sc), 'ref': refl, 'p': pint, 'glob': out, 'lf': lf, 'le': le}
+    if pcell is not None:
+        loc['pc'] = pcell
+    return loc
 
 
 def composite_decode(elem):
@@ -452,7 +566,7 @@ def composite_decode(elem):
     return {'sigs': [signature(e) for e in elem.elems], 'dec': dec}
 
 
-def number_event(mesh, elem, dofs, doflocs=None, drift=0, with_locs=None):
+def number_event(mesh, elem, dofs, doflocs=None, drift=0, with_locs=None, period=None):
     """with_locs: True when the tables come from a basis (its location table is then expected to exist)."""
     ev = {'a': 'Number', 'err': '', 'drift': int(drift), 'sig': signature(elem)}
     ev.update(mesh_tables(mesh))
@@ -461,6 +575,10 @@ def number_event(mesh, elem, dofs, doflocs=None, drift=0, with_locs=None):
         with_locs = doflocs is not None
     ev['loc'] = loc_info(mesh, elem, doflocs) if with_locs else {'mode': 'none'}
     ev['dec'] = composite_decode(elem)
+    if period is not None:                      # periodic mesh: the identification is judged against the geometry
+        sc = find_scale(mesh.p) or 1
+        pc = cell_coords(mesh, sc)
+        ev['per'] = {'pc': pc if pc is not None else [], 'period': [int(x) * int(sc) for x in period]}
     return ev
 
 
